@@ -2,31 +2,39 @@
 (***************************************************************************)
 (* Trace specification: replays an ndjson log of real tz-rs API calls      *)
 (* (one event per call: op, full arguments a, full observable result r)    *)
-(* through the specification.  Every event is judged against the set of    *)
+(* through the specification.  The client session has state: the current   *)
+(* zone and the search buffer.  Every event is judged against the set of   *)
 (* outcomes the specification admits; a disagreeing event does not stop    *)
-(* the replay, it is recorded in `bad` with a cause tag.                   *)
+(* the replay: it is recorded in `bad` with a cause tag, the state is      *)
+(* re-synchronised from the logged outcome and validation goes on.         *)
 (***************************************************************************)
-EXTENDS DateTime, Json, IOUtils, TLC
+EXTENDS Find, Json, IOUtils, TLC
 
 Rec == ndJsonDeserialize(IOEnv.TRACE)
 NRec == Len(Rec)
 
-VARIABLES l, bad
-vars == <<l, bad>>
+VARIABLES l,      \* next event
+          zone,   \* current zone of the session (UtcZone initially and after a refused construction)
+          buf,    \* the client's search buffer (8 slots), persists from call to call
+          bad,    \* {<<index, tag>>}: disagreements
+          info    \* {<<index, tag>>}: spec-computed facts about zones (used to recognise known findings)
+vars == <<l, zone, buf, bad, info>>
 
 Has(r, k) == k \in DOMAIN r
+EmptyBuf == [i \in 1..8 |-> <<>>]
 \* tags for a logged result r against an outcome specification out
 Judge(r, out) ==
   IF Has(r, "panic") THEN {"panic"}
   ELSE IF Has(r, "arg") THEN {"generator-error"}
-  ELSE IF Has(r, "err") THEN (IF r.err \in out.err THEN {} ELSE {"wrong-error"})
+  ELSE IF Has(r, "err") THEN (IF r.err \in out.err THEN {} ELSE IF out.err = {} THEN {"refused-but-must-succeed"} ELSE {"wrong-error"})
   ELSE IF Has(r, "ok") THEN (IF r.ok \in out.ok THEN {} ELSE IF out.ok = {} THEN {"accepted-but-must-fail"} ELSE {"wrong-value"})
   ELSE {"malformed-result"}
+NoPanic(r) == IF Has(r, "panic") THEN {"panic"} ELSE IF Has(r, "arg") THEN {"generator-error"} ELSE {}
 \* global invariant of every date-time observation inside an Ok result
 OkDt(r, P(_)) == IF Has(r, "ok") THEN (IF P(r.ok) THEN {} ELSE {"C14-dtinv"}) ELSE {}
-
 WithDt(r, out, isZoned) == Judge(r, out) \cup (IF isZoned THEN OkDt(r, DtInv) ELSE OkDt(r, UdtInv))
 
+\* ---- C01, C02, C16 ----
 VGmtime(e) ==
   LET t == WToCDS(e.a.t) IN
   IF e.a.via = "utc" THEN WithDt(e.r, Gmtime(t, e.a.ns), FALSE)
@@ -45,26 +53,100 @@ VUtcCmp(e) ==
               c == InstCmp(ua, a.ns, ub, b.ns)
           IN (IF e.r.ok.ua = ua /\ e.r.ok.ub = ub THEN {} ELSE {"wrong-value"})
              \cup (IF a.s < 60 /\ b.s < 60 /\ (e.r.ok.ord # c \/ e.r.ok.eq # (IF c = 0 THEN 1 ELSE 0)) THEN {"order-not-by-instant"} ELSE {})
-\* C16
 VFromNanos(e) ==
   LET sp == Split(e.a.N) IN
   IF ~WFitsI64(sp.q) THEN Judge(e.r, OutErr("OutOfRange"))
   ELSE LET t == WToCDS(sp.q) IN
        IF e.a.via = "utc" THEN WithDt(e.r, Gmtime(t, sp.r), FALSE)
        ELSE IF e.a.via = "local" THEN WithDt(e.r, FromLocal(t, sp.r, e.a.type), TRUE)
-       ELSE {"unsupported-via"}
+       ELSE WithDt(e.r, Localtime(zone, t, sp.r), TRUE)
+
+\* ---- C13, C14 ----
+VType(e) ==
+  LET a == e.a errs == IF a.via = "new" THEN TypeErrs(a.off, a.des, a.nodes = 1) ELSE TypeErrs(a.off, <<>>, TRUE) IN
+  IF errs # {} THEN Judge(e.r, Out({}, errs))
+  ELSE Judge(e.r, OutOk([off |-> a.off, dst |-> IF a.via = "new" THEN a.dst ELSE 0, des |-> IF a.via = "new" /\ a.nodes = 0 THEN a.des ELSE <<>>]))
+VNewDt(e) == LET a == e.a IN WithDt(e.r, NewDt(a.y, a.mo, a.d, a.h, a.mi, a.s, a.ns, a.type), TRUE)
+VFromLocal(e) == WithDt(e.r, FromLocal(WToCDS(e.a.t), e.a.ns, e.a.type), TRUE)
+VLocaltime(e) == WithDt(e.r, Localtime(zone, WToCDS(e.a.u), e.a.ns), TRUE)
+\* projection keeps (instant, ns) and re-derives fields and type from the target zone
+VProject(e) ==
+  LET t == WToCDS(e.a.t) lt == Localtime(zone, t, e.a.ns) IN
+  IF Has(e.r, "ok") THEN
+       (IF e.r.ok.dst \in lt.ok THEN {} ELSE IF lt.ok = {} THEN {"accepted-but-must-fail"} ELSE {"wrong-value"})
+       \cup (IF e.r.ok.dst.u = e.r.ok.src.u /\ e.r.ok.dst.ns = e.r.ok.src.ns /\ e.r.ok.src.u = e.a.t THEN {} ELSE {"C14-projection-changed-instant"})
+       \cup (IF DtInv(e.r.ok.dst) THEN {} ELSE {"C14-dtinv"})
+  ELSE IF Has(e.r, "err") /\ e.r.err = "Construct" THEN {}       \* the source date-time itself could not be built
+  ELSE Judge(e.r, lt)
+VDtCmp(e) ==
+  IF ~Has(e.r, "ok") THEN NoPanic(e.r)
+  ELSE LET c == InstCmp(e.a.a.t, e.a.a.ns, e.a.b.t, e.a.b.ns) IN
+       IF e.r.ok.ord = c /\ e.r.ok.eq = (IF c = 0 THEN 1 ELSE 0) THEN {} ELSE {"C14-comparison-not-by-instant"}
+
+\* ---- C11 ----
+VRuleDay(e) == IF ValidRuleDay(e.a.d) THEN Judge(e.r, OutOk(e.a.d))
+               ELSE Judge(e.r, Out({}, {"TransitionRule.InvalidRuleDayJulianDay", "TransitionRule.InvalidRuleDayMonth",
+                                          "TransitionRule.InvalidRuleDayWeek", "TransitionRule.InvalidRuleDayWeekDay"}))
+VRule(e) == LET v == RuleVerdict(e.a) IN Judge(e.r, IF v.ok = {} THEN Out({}, v.err) ELSE OutOk(1))
+
+\* ---- C13: zone construction (both constructors are called by the harness; r.ref is the borrowed one's verdict) ----
+ZoneInfo(z) ==
+     (IF z.rule.k = "alt" /\ ~Interleaves(z.sum) THEN {"rule-does-not-interleave"} ELSE {})
+  \cup (IF z.rule.k = "alt" /\ CoincidentSouth(z.sum) THEN {"coincident-south"} ELSE {})
+  \cup (IF z.rule.k = "alt" /\ Degenerate(z.sum) THEN {"degenerate-rule"} ELSE {})
+  \cup (IF \E i \in 1..Len(z.lp) : ~Inserted(z.lp, i) THEN {"negative-leap"} ELSE {})
+VZone(e, z) ==
+  LET v == ZoneVerdict(z) r == e.r IN
+  IF Has(r, "panic") THEN {"panic"} ELSE IF Has(r, "arg") THEN {"generator-error"}
+  ELSE (IF Has(r, "ok")
+        THEN (IF v = {} \/ "ok-or" \in v THEN {} ELSE {"C13-accepted-but-must-fail"})
+             \cup (IF r.ok.ref = "ok" THEN {} ELSE {"C13-constructors-disagree"})
+             \cup (IF r.ok.echo.tr = e.a.tr /\ r.ok.echo.ty = e.a.ty /\ r.ok.echo.lp = e.a.lp /\ r.ok.echo.rule = e.a.rule THEN {} ELSE {"C13-accessors-differ"})
+        ELSE (IF v = {} THEN {"C13-refused-but-well-formed"} ELSE IF r.err \in v THEN {} ELSE {"C13-wrong-error"})
+             \cup (IF r.ref = r.err THEN {} ELSE {"C13-constructors-disagree"}))
+
+\* ---- C03, C04, C12 ----
+VLookup(e) == Judge(e.r, Lookup(zone, WToCDS(e.a.u)))
+
+\* ---- C05, C06, C17 ----
+VFind(e) == IF Has(e.r, "panic") THEN {"panic"} ELSE FindTags(zone, e.a, e.a.ns, e.r)
+VFindN(e) ==
+  IF Has(e.r, "panic") THEN {"panic"}
+  ELSE IF Has(e.r.res, "panic") \/ Has(e.r.full, "panic") THEN {"panic"}
+  ELSE FindTags(zone, e.a, e.a.ns, e.r.full) \cup FindNTags(buf, e.a.n, e.r)
 
 Verdict(e) ==
   CASE e.op = "gmtime" -> VGmtime(e)
     [] e.op = "timegm" -> VTimegm(e)
     [] e.op = "utccmp" -> VUtcCmp(e)
     [] e.op = "fromnanos" -> VFromNanos(e)
+    [] e.op = "type" -> VType(e)
+    [] e.op = "newdt" -> VNewDt(e)
+    [] e.op = "fromlocal" -> VFromLocal(e)
+    [] e.op = "localtime" -> VLocaltime(e)
+    [] e.op = "project" -> VProject(e)
+    [] e.op = "dtcmp" -> VDtCmp(e)
+    [] e.op = "ruleday" -> VRuleDay(e)
+    [] e.op = "rule" -> VRule(e)
+    [] e.op = "lookup" -> VLookup(e)
+    [] e.op = "find" -> VFind(e)
+    [] e.op = "findn" -> VFindN(e)
     [] OTHER -> {"unknown-op"}
 
-Init == l = 1 /\ bad = {}
-Next == /\ l <= NRec
-        /\ LET tags == Verdict(Rec[l]) IN bad' = bad \cup {<<l, t>> : t \in tags}
-        /\ l' = l + 1
+Init == l = 1 /\ zone = UtcZone /\ buf = EmptyBuf /\ bad = {} /\ info = {}
+Step(e) ==
+  IF e.op = "zone" THEN
+     LET z == MkZone(e.a) tags == VZone(e, z) accepted == Has(e.r, "ok") IN
+     /\ bad' = bad \cup {<<l, t>> : t \in tags}
+     /\ zone' = IF accepted THEN z ELSE UtcZone            \* re-synchronised from the logged outcome
+     /\ info' = info \cup {<<l, t>> : t \in ZoneInfo(z)}
+     /\ buf' = EmptyBuf
+  ELSE
+     /\ bad' = bad \cup {<<l, t>> : t \in Verdict(e)}
+     /\ zone' = zone
+     /\ info' = info
+     /\ buf' = IF e.op = "findn" /\ Has(e.r, "buf") THEN e.r.buf ELSE buf
+Next == l <= NRec /\ Step(Rec[l]) /\ l' = l + 1
 Spec == Init /\ [][Next]_vars
-Report == (l = NRec + 1) => PrintT(<<"DONE", NRec, ToJson(bad)>>)
+Report == (l = NRec + 1) => PrintT(<<"DONE", NRec, ToJson(<<bad, info>>)>>)
 =============================================================================
